@@ -1765,6 +1765,8 @@ class Runner:
         spec = rng.choice([None, '', '>8:red', '*^9', '>7', '*^8:bold', '<6', '.-<9:blue', ':bold;red', '12'])
         calls = [
             ('apply_formatting', (arg, st, en, rng.random() < 0.5), {}),
+            ('apply_formatting', (arg, 0, None, False), {}), ('apply_formatting', (arg,), dict(topmost=False)), ('apply_formatting', (arg, 0), {}),
+            ('remove_formatting', (), {}), ('remove_formatting', (arg,), {}), ('remove_formatting', (None, 0, None), {}),
             ('remove_formatting', (rng.choice([None, None, arg]), st, en), {}),
             ('clear_formatting', (), {}),
             ('__getitem__', (slice(self.bound(x), self.bound(x)),), {}),
@@ -1837,7 +1839,13 @@ class Runner:
                     viol.append(('C13', 'ansistr_op_eq', nm_ + ' with AnsiStr arguments differs from the same call with their AnsiString values'))
         if same(a, x, 'receiver after join'):
             viol.append(('C13', 'ansistr_immutable', 'join'))
-        chosen = rng.sample(calls, 12)
+        chosen = rng.sample(calls, 20)
+        # the core operations are compared on every twin step, whatever the sample holds
+        core = {'apply_formatting', 'remove_formatting', '__getitem__', '__add__', 'to_str', 'simplify', 'replace', 'split'}
+        seen = set(c_[0] for c_ in chosen)
+        for c_ in calls:
+            if c_[0] in core and c_[0] not in seen:
+                chosen.append(c_); seen.add(c_[0])
         if exotic:
             chosen += [c_ for c_ in calls if c_[0] in ('strip', 'lstrip', 'rstrip', 'split', 'rsplit', 'splitlines') and c_[1][:1] in ((), (None,))]
         for name, args, kw in chosen:
